@@ -72,6 +72,19 @@ def cases(draw, tier):
         dofiles[t + ".do"] = {"v": 1, "body": [["dep", 1, [sib[0], cyc[draw(st.integers(0, k - 1))]]],
                                                ["out", "stdout"]]}
         second_entry = t
+    # "side loop": a cycle member asks, BEFORE the next member, for a target y0 that itself leads back to that member
+    # (two overlapping cycles); with y0 also on the command line next to a cycle member at -j>=2, the member's
+    # redo-ifchange can find y0 locked by the sibling branch while the NEXT name in its list is one of its own
+    # ancestors -- which must be refused at once, not after waiting for y0
+    side = None
+    if k >= 2 and not late and draw(st.integers(0, 99)) < 20:
+        i_ = draw(st.integers(0, k - 1))
+        for stt in dofiles[cyc[i_] + ".do"]["body"]:
+            if stt[0] == "dep" and cyc[(i_ + 1) % k] in stt[2]:
+                stt[2].insert(stt[2].index(cyc[(i_ + 1) % k]), "y0")
+        body = [["work", 0]] if draw(st.integers(0, 1)) else []
+        dofiles["y0.do"] = {"v": 1, "body": body + [["dep", 1, [cyc[i_]]], ["out", "stdout"]]}
+        side = "y0"
     entries_pool = cyc + pre + ([second_entry] if second_entry else [])
     n_entry = draw(st.sampled_from([1, 1, 1, 2, 2, 3]))
     entries = sgen._subset(draw, entries_pool, 1, n_entry)
@@ -79,6 +92,9 @@ def cases(draw, tier):
         entries = [pre[draw(st.integers(0, len(pre) - 1))]]
     if draw(st.integers(0, 2)) == 0 and sib:
         entries.insert(draw(st.integers(0, len(entries))), sib[0])
+    if side:
+        j_ = draw(st.integers(0, k - 1))
+        entries = [cyc[j_], side] if draw(st.integers(0, 1)) else [side, cyc[j_]]
     kind = draw(st.sampled_from(["redo", "redo", "ifchange"]))
     if late and late.get("mode") == "flag":
         kind = "redo"
@@ -93,9 +109,11 @@ def cases(draw, tier):
             return False
         seen.add(t)
         return any(_reaches(q, seen) for stt in dofiles[t + ".do"]["body"] if stt[0] == "dep" for q in stt[2])
+    if side:
+        jobs = max(jobs, 2)
     d8_shape = jobs >= 2 and len([e for e in set(entries) if _reaches(e, set())]) >= 2
     excluded_d8 = False
-    if d8_shape and draw(st.integers(0, 99)) >= 8:
+    if d8_shape and draw(st.integers(0, 99)) >= (60 if side else 8):
         jobs = 1
         excluded_d8 = True
     env = {"REDO_LOG": "0"} if draw(st.integers(0, 1)) else {}
@@ -120,7 +138,8 @@ def cases(draw, tier):
     if late:
         for i in range(late["pad"]):
             pdof["z%d.do" % i] = {"v": 1, "body": [["dep", 1, ["s0"]], ["out", "stdout"]]}
-    proj = {"dirs": [""], "sources": ["s0"], "dofiles": pdof, "targets": cyc + pre + sib, "watch": []}
+    proj = {"dirs": [""], "sources": ["s0"], "dofiles": pdof, "targets": cyc + pre + sib + ([side] if side else []),
+            "watch": []}
     return {"project": proj, "late": late, "invs": [{"argv": argv, "cwd": "", "env": env, "jobserver": js}], "cycle": cyc,
             "entries": entries, "jobs": jobs, "excluded_d8": excluded_d8, "parallel_entries_into_cycle": len(cyc_entries) >= 2 and jobs >= 2,
             "schedule": draw(sgen.schedule()), "sopts": {"seed": draw(st.integers(0, 2 ** 31 - 1)), "coincide": False, "token_games": False, "silence_s": 5.0,
@@ -200,8 +219,24 @@ def run_case(case, tier):
             in_sel = [p for p in waiters if (p.get("syscall") or "").startswith("270 ")]
             # every nested redo-ifchange either waits for its own child job or sits in F_SETLKW, at least two in the latter
             all_setlkw = len(in_lk) >= 2 and len(in_lk) + len(in_sel) == len(waiters)
+            # does some waiting redo-ifchange name a target that one of its own ANCESTORS is building?  That is the
+            # plain case of the statement (must be refused at once); D8 is about siblings only
+            bypid = {p.get("pid"): p for p in procs}
+
+            def building(p):
+                w = (p.get("cmdline") or "").split(" ")
+                return w[3] if len(w) >= 4 and w[0] == "sh" and w[2].endswith(".do") else None
+            asks_ancestor = False
+            for p in waiters:
+                args = set((p.get("cmdline") or "").split(" ")[1:])
+                cur, hops = bypid.get(p.get("ppid")), 0
+                while cur is not None and hops < 60:
+                    if building(cur) in args:
+                        asks_ancestor = True
+                    cur, hops = bypid.get(cur.get("ppid")), hops + 1
             out.violation = {"property": "C12", "clause": "hang", "step": 0, "detail": dict(ctx, proof=r.hang),
-                             "sig": dict(sig_shape, symptom="hang", nested_waiters_all_in_F_SETLKW=all_setlkw)}
+                             "sig": dict(sig_shape, symptom="hang", nested_waiters_all_in_F_SETLKW=all_setlkw,
+                                         waiter_requests_an_ancestor=asks_ancestor)}
             return out
         if getattr(r, "deadline_hit", False) or inv.rc is None:
             raise runner.Inconclusive("deadline without no-progress proof")
